@@ -37,7 +37,7 @@ Example C06_fault_handler_is_translation_nonvacuous :
   ADDR < two64 /\ T.mem_w64 s1 /\ F.fault_stable ADDR s1.
 Proof.
   split; [reflexivity|]. split; [exact s1_w64|].
-  intros l p f i sa cp sb page src dst sc e3 Hin Hr Hfw Ha Hmt Hs Hd Hu.
+  intros p f i sa cp sb page src dst sc e3 Hin Hr Hfw _ Ha Hmt Hs Hd Hu.
   vm_compute in Hfw. injection Hfw as <- <-.
   vm_compute in Ha. injection Ha as <- <-.
   vm_compute in Hmt. injection Hmt as <- <-.
@@ -45,7 +45,7 @@ Proof.
   vm_compute in Hd. injection Hd as <-.
   vm_compute in Hu. injection Hu as <- <-.
   vm_compute in Hin.
-  destruct Hin as [E|[E|[E|[E|[]]]]]; injection E as <- <-; vm_compute in Hr; try discriminate.
+  destruct Hin as [E|[E|[E|[E|[]]]]]; try discriminate E; injection E as <-; vm_compute in Hr; try discriminate.
   split; [vm_compute; reflexivity|].
   apply M.entry_stable_b; vm_compute; reflexivity.
 Qed.
